@@ -33,6 +33,7 @@ type c14Scn struct {
 	Class     string `json:"class"`
 	Key       bool   `json:"key"`
 	Password  bool   `json:"password"`
+	Idx       *int   `json:"idx,omitempty"` // replay: the position the scenario had in its batch
 	idx       int
 }
 
@@ -442,6 +443,10 @@ func c14(_ []string) error {
 		}
 
 		s.idx = len(scns)
+		if s.Idx != nil {
+			s.idx = *s.Idx
+		}
+
 		scns = append(scns, s)
 
 		return nil
